@@ -10,6 +10,30 @@ CHECKS = {
    technique="Rocq theorems over a Gallina model + differential correspondence (extracted OCaml vs Go)",
    design="7 (C05)"),
 }
+
+CALC_NOTE = ("Trusted: Coq kernel, extraction, OCaml driver, Go harness, python generator/comparison and the independent python reading of the calculation. "
+             "Modelled not verified: rate-key resolution (C12), regime/addon normalisers, float64 path of num (C05).")
+CHECKS.update({
+ "C01": dict(
+   text="The calculation (bill/calculator.go, line_calculate.go, discounts/charges, totals, payment details, tax totals calculator) is transcribed as the Gallina model Calc/Calc.v over the exact arithmetic of C05; theorems in Props/C01.v; the model is tied to the code by running Go (Parse -> Envelop -> JSON), the extracted model and an independent exact python reading on the same generated invoices and comparing every line figure, total and tax group; a figure where Go deviates from both is reported with the minimised document.",
+   note=CALC_NOTE, technique="Rocq theorems over a Gallina calculation model + three-way differential correspondence", design="7 (C01)"),
+ "C02": dict(
+   text="Tax grouping/summing model (Calc/Calc.v: rt_matches, add_to_cats, ct_calc, sum_step) with theorems in Props/C02.v; tie as C01 with a combo-focused generator; oracle P checks partition, group amounts, category sums, signed tax total and the included-tax gross identity directly on Go's presented figures.",
+   note=CALC_NOTE, technique="Rocq theorems over the tax-totals model + differential correspondence + direct clause oracle", design="7 (C02)"),
+ "C03": dict(
+   text="Re-addition identities under the currency rule: theorems over Calc/Calc.v in Props/C03.v; oracle P needs no model: every identity of the statement is recomputed from the figures Go presents (currency rule explicit or by EL default); calculation tied to the model as in C01.",
+   note=CALC_NOTE, technique="Rocq theorems + output-identity oracle on Go results + differential correspondence", design="7 (C03)"),
+ "C04": dict(
+   text="Fixpoint of calculation and losslessness: the model's re-input function (Calc/Symmetry.v as_input) and its refutation witness in Props/C04.v; breadth by iteration of the implementation over all 165 example files and generated invoices/payments (3 rounds serialise/parse/calculate with byte comparison, parse->marshal identity, read-only ops, two processes with GOMAXPROCS 1/16); recalculation figures compared with the model. Partial: breadth over all schemas/regimes is sampling of the implementation, map-order nondeterminism cannot be exhibited by the model.",
+   note=CALC_NOTE, technique="Rocq model of re-input + refutation witness; iteration of the implementation with byte comparison", design="7 (C04)"),
+ "C17": dict(
+   text="Negation/permutation/tax-removal model (Calc/Symmetry.v: neg_doc, invert, remove_included_taxes) with theorems in Props/C17.v; relational harness runs Go on d, Invert(d), Invert twice, row permutations and RemoveIncludedTaxes and compares with the model and Go's outputs pairwise.",
+   note=CALC_NOTE, technique="Rocq theorems over the symmetry model + relational differential harness", design="7 (C17)"),
+ "C20": dict(
+   text="tax.Total Negate/Merge/Calculate and bill.Payment as the Gallina model Calc/Merge.v with theorems in Props/C20.v; Go vs extracted model on generated and real (calculated-invoice) summaries incl. operand immutability; oracle P recomputes component-wise sums with exact fractions.",
+   note=CALC_NOTE, technique="Rocq theorems over the merge model + differential correspondence + fraction oracle", design="7 (C20)"),
+})
+
 NOT_APPLICABLE = []
 
 def main():
